@@ -10,7 +10,7 @@ import shutil
 
 from hypothesis import strategies as st
 
-from vf.api import Kind, check, ok, rejected, trivial, violation
+from vf.api import Kind, check, ok, trivial, violation
 from vf.lib import bz
 from vf.lib import treemodel as tm
 
@@ -35,6 +35,15 @@ RULE = ("a base tree (2-8 adds over names a-e plus odd names, depth <= 3) and "
 ASSUMPTIONS = [
     "bzrformats' Inventory.apply_delta is the validity checker for the "
     "'every parent needed' clause",
+    "excluded by construction: a path that is a directory with children in "
+    "an earlier committed tree and a non-directory now (the dirstate "
+    "comparison of the trusted base asserts), entries put below an entry "
+    "whose kind was changed to directory in the same uncommitted script "
+    "(bzrformats' Inventory.rename panics on the stale kind), unversioned "
+    "files below such an entry",
+    "filtered results: records outside the selected set may differ between "
+    "implementations (open finding F16); a filtered result whose delta does "
+    "not apply because of such an extra record is counted under F16",
     "git: similarity-based rename detection is not part of the property; "
     "git results are compared in split (remove + add) form and generated git "
     "texts are pairwise dissimilar only by chance, so pairing is undone "
